@@ -55,6 +55,7 @@ def generate(ctx):
             d["prefire_neurons"] = rng.random() < 0.5          # build the layer around neuron groups that just spiked
             d["partial_clear_at"] = rng.choice([None, 2, 3, 4])  # clear(submodules=False) / clear(clear_feedback=False) mid-run
             d["partial_clear_kind"] = rng.choice(["layer_only", "components_only"])
+        d["drop_adaptations"] = rng.random() < 0.5        # odd clear positions use clear(keep_adaptations=False)
         yield d
 
 
@@ -439,12 +440,24 @@ def run_case(ctx, desc):
         before = _params(pA)
         ctx.case(f"clear/{tag}/{desc['neuron']}/{desc['syn']}/delay{desc['delay']}/at{'0' if kpos == 0 else 'end' if kpos == desc['T'] else 'mid'}")
         ctx.count("clear_positions_checked")
+        # the documented option of the adaptive neurons' clear, handed to the layer (which forwards keywords to its parts): learned
+        # adaptations are then dropped too, everything else behaves as for the plain clear
+        drop = bool(desc.get("drop_adaptations")) and kpos % 2 == 1
+        if drop:
+            rdesc["clear_keywords"] = {"keep_adaptations": False}
         try:
-            A.clear()
+            if drop:
+                A.clear(keep_adaptations=False)
+                if any(k.startswith("n.") for k in before):
+                    ctx.count("clears_dropping_learned_adaptations")
+            else:
+                A.clear()
         except Exception as e:  # noqa: BLE001
             return ctx.violation(ctx.exc_signature(e, f"clear.{kind}"), f"clear() raised {type(e).__name__}: {str(e)[:160]}", rdesc)
         after = _params(pA)
         for k in before:
+            if drop and k.startswith("n."):
+                continue
             if not _same(before[k], after[k]):
                 return ctx.violation(f"{kind}.clear.changed_learned_state", f"clear() changed {k}", rdesc)
         if desc.get("updaters"):
@@ -463,15 +476,22 @@ def run_case(ctx, desc):
                 return ctx.violation(ctx.exc_signature(e, f"update_after_clear.{kind}"), f"{type(e).__name__}: {str(e)[:160]}", rdesc)
             again = _params(pA)
             for k in before:
-                if not _same(before[k], again[k]):
+                if not _same(after[k], again[k]):
                     return ctx.violation(f"{kind}.clear.update_after_clear_changes_parameters", f"update() right after clear() changed {k}", rdesc)
         # fresh copy carrying the learned parameters / adaptations
         pF = _Parts({**desc, "prefire_neurons": False})   # freshly built: components without a past
         for k in pA.conns:
             fac.copy_params(pA.conns[k], pF.conns[k])
         for k in pA.neurons:
-            fac.copy_params(pA.neurons[k], pF.neurons[k])
+            if not drop:
+                fac.copy_params(pA.neurons[k], pF.neurons[k])
         Fl = _layer(desc, pF)
+        if drop:
+            fa, ff = _params(pA), _params(pF)
+            for k in ff:
+                if k.startswith("n.") and not _same(fa[k], ff[k]):
+                    return ctx.violation(f"{kind}.clear.keep_adaptations_false_keeps_adaptation",
+                                         f"after clear(keep_adaptations=False) {k} differs from a freshly built group", rdesc)
         sa, sf = _state(pA), _state(pF)
         for k in sf:
             if not _same(sa[k], sf[k]):
